@@ -26,6 +26,8 @@ fn pool() -> Vec<Vec<Step>> {
         vec![link("s"), act(&["@push(1)", "@push(2)"]), link("s"), act(&["@push(3)"])],
         vec![sync("m"), link("m"), act(&["@upd{k:1,v:1}"]), sync("m")],
         vec![sync("s"), link("s"), act(&["@push(1)", "@push(2)"]), link("s")],
+        // take / drop addressed to the map lane
+        vec![sync("m"), act(&["@upd{k:1,v:1}", "@upd{k:2,v:2}", "@upd{k:3,v:3}"]), cmd("m", "@drop(1)"), cmd("m", "@take(0)"), act(&["@upd{k:4,v:4}"])],
         // a command the lane cannot decode, in the middle of ordinary traffic
         vec![link("m"), cmd("m", "@bogus"), cmd("m", "@update(key:1) 1"), sync("m"), cmd("m", "@remove(key:1)")],
         // the agent's handler fails: every lane fails, every open link must be closed
